@@ -588,13 +588,20 @@ NUMBER_EDGES = ['1.5e', '1e5', '1E-3', '.5', '5.', '0x1F', '1_000', '00', '007',
                 '123456789.12345678', '0.000001', '0.0000001', '1e-7', '9007199254740993', '1.7976931348623157e308', '1e999', '-0', '+1']
 
 
+# one spelling for every alternative a lexer offers for its value tokens (variables in all quotings, numbers, the three string
+# quotings with a doubled quote inside, parameters, comments of every style, prefixed literals of other SQL flavours)
+LEXEME_FORMS = ['@v', "@'v'", '@"v"', '@`v`', '@@v', "@@'v'", '@@"g.v"', '@@`v`', '@a.b', '@$x', '@@session.v', "@'a b'", '@"a.b"', "@''", '@',
+                '0x1F', '1e5', '.5', '5.', '1.e3', "'a''b'", '"a""b"', '`a``b`', '$1', ':name', '?', '#c\n', '--c\n', '/*c*/', '\\N', "N'x'", "X'00'",
+                "b'01'", "_utf8'x'", '$$x$$', "E'x'", '[a]', '{a}', '%s', '%(n)s', '::', ':=', '->', '->>', '<=>', '!', '\\', '..', "''", '""', '``']
+
+
 def mutate(text, toks, rng, vocab):
     """One token-level mutation of `text` whose lexer tokens are `toks` (type, value, index, end, lineno).
     Returns (label, new_text)."""
     if not toks:
         return 'garbage', rng.choice(GARBAGE)
     k = rng.choice(['delete', 'dup', 'replace', 'insert', 'truncate', 'prefix', 'suffix', 'infix', 'swap', 'concat_garbage',
-                    'concat_stmt', 'unbalance', 'glue', 'relayout', 'comment', 'numedge', 'concat_long', 'comment_sandwich'])
+                    'concat_stmt', 'unbalance', 'glue', 'relayout', 'comment', 'numedge', 'concat_long', 'comment_sandwich', 'stray_lexeme', 'lexeme_for_value'])
     i = rng.randrange(len(toks))
     t = toks[i]
     piece = text[t[2]:t[3]]
@@ -616,6 +623,13 @@ def mutate(text, toks, rng, vocab):
         nums = [x for x in toks if x[0] in ('INTEGER', 'FLOAT')]
         x = rng.choice(nums) if nums else t
         return k, text[:x[2]] + rng.choice(NUMBER_EDGES) + text[x[3]:]
+    if k == 'stray_lexeme':
+        # a value-like lexeme where the grammar expects none (between two tokens, blanks on both sides)
+        return k, text[:t[3]] + ' ' + rng.choice(LEXEME_FORMS) + ' ' + text[t[3]:]
+    if k == 'lexeme_for_value':
+        vals = [x for x in toks if x[0] in ('INTEGER', 'FLOAT', 'QUOTE_STRING', 'DQUOTE_STRING', 'ID', 'VARIABLE', 'SYSTEM_VARIABLE', 'PARAMETER')]
+        x = rng.choice(vals) if vals else t
+        return k, text[:x[2]] + rng.choice(LEXEME_FORMS) + text[x[3]:]
     if k == 'concat_long':
         return k, 'selec ' + ', '.join(f'c{n}' for n in range(rng.choice([30, 70, 130, 300]))) + ' from t1 ; ' + text
     if k == 'delete':
